@@ -40,7 +40,7 @@ def tracerOp (tr : Tracer) (toks : List String) : Tracer × String :=
     | _, _, _, _, _, _ => bad
   | _ => bad
 
-def showKeyNode (s : StateChanges) (k : KeyNode) : String :=
+def showKeyNode (s : StateChanges) (k : KeyNode) (sorted : Bool := false) : String :=
   let nt := match k.nodeType with | .root => "root" | .branch => "branch" | .data => "data"
   -- Children()/ChildrenIndices(): sorted by index bytes
   let names := StateChanges.sortBytes (StateChanges.childrenIndicesRaw k)
@@ -48,6 +48,9 @@ def showKeyNode (s : StateChanges) (k : KeyNode) : String :=
     match (alookup n k.childrenIndex).bind (fun id => s.keys[id]?) with
     | some c => s!"{optNat c.slot}/{hexNat c.offset}"
     | none => "?")
+  if sorted then
+    s!"slot={optNat k.slot} off={hexNat k.offset} type={nt} idx={listStr (names.map hexBytes)} kidset={listStr (kids.mergeSort (fun a b => a ≤ b))} changes={showChanges (some k.changes)}"
+  else
   s!"slot={optNat k.slot} off={hexNat k.offset} type={nt} idx={listStr (names.map hexBytes)} kids={listStr kids} changes={showChanges (some k.changes)}"
 
 /-- `Slot` / `Balance` return a nil `*StorageChanges` both for a missing key and for a key
@@ -56,7 +59,7 @@ def showChangesFlat : Option (Option ChangeMap) → String
   | some (some m) => showChangeMap m
   | _ => "nil-or-nokey"
 
-def tracerQuery (tr : Tracer) (toks : List String) : String :=
+partial def tracerQuery (tr : Tracer) (toks : List String) : String :=
   match toks with
   | ["tree"] => showTree tr.tree
   | ["var", a, n, p] =>
@@ -74,6 +77,14 @@ def tracerQuery (tr : Tracer) (toks : List String) : String :=
     match parseHexNat a with
     | some a => showChangesFlat (tr.states.balance a)
     | none => "bad-op"
+  | ["nodes", a, n, p] =>
+    match parseHexNat a, parseBytes n, parseBytesList p with
+    | some a, some n, some p =>
+      match (tr.states.findKeyIndices a n p).bind (fun id => tr.states.keys[id]?) with
+      | none => "nokey"
+      | some k => showKeyNode tr.states k true
+    | _, _, _ => "bad-op"
+  | ["idxs", a, n, p] => tracerQuery tr ["idx", a, n, p]
   | ["idx", a, n, p] =>
     match parseHexNat a, parseBytes n, parseBytesList p with
     | some a, some n, some p =>
